@@ -273,7 +273,7 @@ theorem group_step {k : Bytes} {ss : List (List Entry)} (ha : AllAsc ss)
 
 /-! ### `next` -/
 
-theorem next_spec (mf : MergeFn) (m : Merger) (ss : List (List Entry)) (hasc : AllAsc ss)
+private theorem next_spec (mf : MergeFn) (m : Merger) (ss : List (List Entry)) (hasc : AllAsc ss)
     (hp : m.heap.Perm (start.go 0 ss)) :
     (ss.flatten = [] ∧ next mf m = (m, .ok none)) ∨
     ∃ k vs ss', Spec.group ss.flatten = (k, vs) :: Spec.group ss'.flatten ∧ AllAsc ss' ∧
